@@ -31,6 +31,8 @@ def gen_state_cfg(r, types=TYPES, type_weights=(2, 1, 1), max_nv=3, max_nh=3, ma
         cfg["na"] = r.randint(1, max_na)
     if typ != "positive" and r.random() < custom_p:
         cfg["custom_unitary"] = True
+    if typ != "density" and r.random() < 0.12:
+        cfg["param_layout"] = "colmajor"
     return cfg
 
 
